@@ -165,3 +165,71 @@ Proof.
   assert (forallb (fun k => (0 <? k) && (k <=? 5529600)) from_tzinfo_skips = true) as E by (vm_compute; reflexivity).
   rewrite forallb_forall in E. specialize (E k Hk). lia.
 Qed.
+
+(* ------------------------------------------------------------------ statements over the generated skip list *)
+Lemma search_finds_gen : forall (off : Z -> Z) (H a e c : Z),
+  e < c -> c - e <= fuel_cap * 5529600 -> c + 5529600 <= H + 1 ->
+  (forall x, e < x < c -> off x = a) -> (forall x, c <= x < c + 5529600 -> off x <> a) ->
+  search off H from_tzinfo_skips a e = Some (c - 1).
+Proof.
+  intros off H a e c Hec Hcap HcH Ha Hb.
+  destruct skips_facts as (Hne & Hall & Hlast & Hch & Hhd).
+  destruct (search_finds off H from_tzinfo_skips a e c 5529600 Hne Hall Hch) as (r & Hr & Hr1 & Hr2); auto.
+  rewrite Hlast in Hr2. rewrite Hr. f_equal. lia.
+Qed.
+
+Lemma loop_correct_gen : forall off dstv name wall_of H lst cps s prev fuel,
+  lst <= H - 5529600 -> pieces off H 5529600 5529600 s cps -> (length cps + 2 <= fuel)%nat ->
+  loop off dstv name wall_of H fuel from_tzinfo_skips lst s prev =
+  Some (expected off dstv name wall_of lst s prev cps).
+Proof.
+  intros. destruct skips_facts as (Hne & Hall & Hlast & Hch & Hhd).
+  apply loop_correct with (M := 5529600); auto.
+Qed.
+
+(* ------------------------------------------------------------------ abstract witnesses of the three defects *)
+Definition dS : Z * Z * list N := (3600, 0, s2l "S").
+(* one transition +1h -> +2h at instant 10^7 *)
+Definition shift_tab : ztab := [(10000000, (7200, 3600, s2l "D"))].
+Definition shift_gen_pytz := from_tzinfo_tab shift_tab dS true 1000000000 50 0 20000000 20044800.
+(* the same zone on the wall axis of zoneinfo (fold=0): the wall offset changes after the gap *)
+Definition shift_wtab : ztab := [(10007200, (7200, 3600, s2l "D"))].
+Definition shift_gen_zoneinfo := from_tzinfo_tab shift_wtab dS false 1000000000 50 3600 20044800 20044800.
+
+Lemma shift_refutes :
+  shift_gen_pytz = Ok [mkGobs true 3600 3600 (s2l "S") 3600 []; mkGobs false 3600 7200 (s2l "D") 10007200 []] /\
+  shift_gen_zoneinfo = Ok [mkGobs true 3600 3600 (s2l "S") 3600 []; mkGobs false 3600 7200 (s2l "D") 10007200 []] /\
+  tab_off shift_tab dS 10000000 = 7200 /\
+  rfc_offset (to_vtz [mkGobs true 3600 3600 (s2l "S") 3600 []; mkGobs false 3600 7200 (s2l "D") 10007200 []]) 10000000
+    = Some (3600, Some (s2l "S"), false) /\
+  rfc_offset (to_vtz [mkGobs true 3600 3600 (s2l "S") 3600 []; mkGobs false 3600 7200 (s2l "D") 10007200 []]) 10003600
+    = Some (7200, Some (s2l "D"), true).
+Proof. vm_compute. repeat split; reflexivity. Qed.
+
+(* a 30-day excursion to +1h, 10 days after the start: no sampled point of the 64-day level sees it *)
+Definition d0 : Z * Z * list N := (0, 0, s2l "S").
+Definition short_tab : ztab := [(864000, (3600, 3600, s2l "D")); (3456000, (0, 0, s2l "S"))].
+Definition short_gen := from_tzinfo_tab short_tab d0 false 1000000000 50 0 17280000 17280000.
+Lemma short_refutes :
+  short_gen = Ok [mkGobs true 0 0 (s2l "S") 0 []] /\
+  tab_off short_tab d0 1728000 = 3600 /\
+  rfc_offset (to_vtz [mkGobs true 0 0 (s2l "S") 0 []]) 1728000 = Some (0, Some (s2l "S"), false).
+Proof. vm_compute. repeat split; reflexivity. Qed.
+
+(* abbreviation and DST flag change at constant offset: the search compares utcoffset() only *)
+Definition name_tab : ztab := [(10000000, (3600, 3600, s2l "X"))].
+Definition name_gen := from_tzinfo_tab name_tab dS false 1000000000 50 0 20044800 20044800.
+Lemma name_refutes :
+  name_gen = Ok [mkGobs true 3600 3600 (s2l "S") 0 []] /\
+  tab_name name_tab dS 15000000 = s2l "X" /\ tab_dst name_tab dS 15000000 = 3600 /\
+  rfc_offset (to_vtz [mkGobs true 3600 3600 (s2l "S") 0 []]) 15000000 = Some (3600, Some (s2l "S"), false).
+Proof. vm_compute. repeat split; reflexivity. Qed.
+
+(* a well-behaved zone: two transitions a year apart -- the hypotheses of the loop theorem hold and
+   all three intervals are recorded *)
+Definition good_tab : ztab := [(10000000, (7200, 3600, s2l "D")); (40000000, (3600, 0, s2l "S"))].
+Lemma good_gen :
+  from_tzinfo_tab good_tab dS true 1000000000 50 0 60000000 60048000 =
+  Ok [mkGobs true 3600 3600 (s2l "S") 3600 []; mkGobs false 3600 7200 (s2l "D") 10007200 [];
+      mkGobs true 7200 3600 (s2l "S") 40003600 []].
+Proof. vm_compute. reflexivity. Qed.
